@@ -2316,22 +2316,36 @@ atten_analytic(vh::Rng& rng, bool thorough, int round)
                 if (shape == 0 ? (x >= x0 && x <= x1 && y >= y0 && y <= y1) : (std::hypot(x * vs.x() - cx, y * vs.y() - cy) <= rad))
                   (*mu)[z][y][x] = m;
           const double bx0 = (x0 - .5) * vs.x(), bx1 = (x1 + .5) * vs.x(), by0 = (y0 - .5) * vs.y(), by1 = (y1 + .5) * vs.y();
-          // expected log(ACF) per bin; for the cylinder also whether the LOR is well inside (distance from the axis <= 0.6 radius)
-          std::vector<double> expected(g.nbins());
-          std::vector<char> use(g.nbins(), 1);
+          // expected log(ACF) per bin.  Box: mu x (length of the LOR inside the box).  Cylinder: the image is a set of whole voxels,
+          // so the line integral is exactly the sum over its voxels of mu x (length of the LOR inside that voxel's rectangle),
+          // each computed on its own by clipping (no ray tracing, no stepping from voxel to voxel); in addition the smooth
+          // circle's chord 2 sqrt(R^2 - d^2) is compared loosely for LORs well inside (d <= 0.6 R).
+          std::vector<double> expected(g.nbins()), smooth(g.nbins(), -1.);
+          std::vector<std::pair<int, int>> inside;
+          if (shape == 1)
+            {
+              const int z = mu->get_min_index();
+              for (int y = (*mu)[z].get_min_index(); y <= (*mu)[z].get_max_index(); ++y)
+                for (int x = (*mu)[z][y].get_min_index(); x <= (*mu)[z][y].get_max_index(); ++x)
+                  if ((*mu)[z][y][x] != 0.F)
+                    inside.push_back(std::make_pair(x, y));
+            }
           for (std::size_t i = 0; i < g.nbins(); ++i)
             {
               const auto& l = lors[i];
               const double l2 = std::hypot(l[3] - l[0], l[4] - l[1]), l3 = std::sqrt(l2 * l2 + (l[5] - l[2]) * (l[5] - l[2]));
-              double c2;
+              double c2 = 0;
               if (shape == 0)
                 c2 = chord_rect(l[0], l[1], l[3], l[4], bx0, bx1, by0, by1);
               else
                 {
+                  for (const auto& v : inside)
+                    c2 += chord_rect(l[0], l[1], l[3], l[4], (v.first - .5) * vs.x(), (v.first + .5) * vs.x(), (v.second - .5) * vs.y(),
+                                     (v.second + .5) * vs.y());
                   const double ux = (l[3] - l[0]) / l2, uy = (l[4] - l[1]) / l2;
                   const double dist = std::fabs((cx - l[0]) * uy - (cy - l[1]) * ux);
-                  c2 = dist >= rad ? 0. : 2 * std::sqrt(rad * rad - dist * dist);
-                  use[i] = dist <= 0.6 * rad;
+                  if (dist <= 0.6 * rad)
+                    smooth[i] = m / 10. * 2 * std::sqrt(rad * rad - dist * dist) * l3 / l2;
                 }
               expected[i] = m / 10. * c2 * l3 / l2;
             }
@@ -2431,16 +2445,14 @@ atten_analytic(vh::Rng& rng, bool thorough, int round)
               fill_from(g, back, A);
               const bool undone = run_route(*n, whole, g, back, false);
               const std::vector<float> U = flatten(g, back);
-              int bad = -1, bad_undo = -1;
+              int bad = -1, bad_undo = -1, bad_smooth = -1;
               double worst = 0;
-              // box: float arithmetic of the ray tracing only (observed <= 2e-5); cylinder of 8-14 voxels radius: its discretisation
-              const double tol_rel = shape == 0 ? 2e-4 : 0.12, tol_abs = shape == 0 ? 2e-5 : 2e-3;
+              // float arithmetic of the ray tracing only (observed <= 2e-5)
+              const double tol_rel = 2e-4, tol_abs = 2e-5;
               for (std::size_t i = 0; i < g.nbins(); ++i)
                 {
                   if (!undone || !close_rel(U[i], 1., 1e-5))
                     bad_undo = static_cast<int>(i);
-                  if (!use[i])
-                    continue;
                   const double got = std::log(static_cast<double>(A[i]));
                   const double dev = std::fabs(got - expected[i]);
                   if (!(dev <= tol_abs + tol_rel * expected[i]) && (bad < 0 || dev > worst))
@@ -2448,6 +2460,9 @@ atten_analytic(vh::Rng& rng, bool thorough, int round)
                       bad = static_cast<int>(i);
                       worst = dev;
                     }
+                  // the smooth cylinder: within 20 % (discretisation of a circle of 5-14 voxels radius)
+                  if (smooth[i] >= 0 && !(std::fabs(got - smooth[i]) <= 0.2 * smooth[i]))
+                    bad_smooth = static_cast<int>(i);
                 }
               ++g_checks;
               if (bad >= 0)
@@ -2455,8 +2470,20 @@ atten_analytic(vh::Rng& rng, bool thorough, int round)
                   std::ostringstream t;
                   t << "attenuation correction factor is not exp(line integral of mu in cm^-1 along the LOR): uniform " << (shape ? "cylinder" : "box")
                     << " mu=" << m << " cm^-1, " << rname << ", " << bin_name(g, bad) << ": log(ACF)=" << std::log(static_cast<double>(A[bad]))
-                    << " but mu x chord length = " << expected[bad];
+                    << " but mu x length inside = " << expected[bad];
                   oracle_fail(t.str());
+                }
+              if (shape == 1)
+                {
+                  ++g_checks;
+                  if (bad_smooth >= 0)
+                    {
+                      std::ostringstream t;
+                      t << "attenuation correction factor of a uniform cylinder is not within 20 % of exp(mu x 2 sqrt(R^2 - d^2)): mu=" << m << " cm^-1, "
+                        << rname << ", " << bin_name(g, bad_smooth) << ": log(ACF)=" << std::log(static_cast<double>(A[bad_smooth]))
+                        << " expected " << smooth[bad_smooth];
+                      oracle_fail(t.str());
+                    }
                 }
               ++g_checks;
               if (bad_undo >= 0)
